@@ -200,8 +200,8 @@ CLAIMED = {
         design="§4 C15"),
     "C16": dict(
         text="A Lean reference parser (tree-building recursive descent mirroring parser.rs) and token-level printer; theorems "
-             "`parse_print_*`: printing a canonical tree and parsing the tokens gives the tree back, for every tree of the covered "
-             "grammar (types: all; expressions: see DESIGN). Tie, four ways: for syntax-directed generated modules covering every "
+             "`parse_print_module` and its layers (types, expressions at every precedence level, statements, declarations): printing "
+             "any tree the parser can produce and parsing the tokens gives the tree back (all sizes; only `&x .. n` left out). Tie, four ways: for syntax-directed generated modules covering every "
              "production (random literal spellings, shorthand, trailing commas, layouts, comments) and every corpus file the first "
              "generation accepts, the tree decoded from the second-generation XML dump (balanced, MALFORMED-free), the "
              "first-generation AST, the Lean parser's tree of the REAL token stream and the generator's own tree must be "
@@ -251,9 +251,9 @@ CLAIMED = {
         design="§4 C19"),
     "C20": dict(
         text="Lean model of the rebuilder at token level (one printing arm per node kind) and of the parser; theorems "
-             "`parse_print_*`: parse (print t ++ rest) = (norm t, rest) for every canonical tree of the covered grammar, where norm "
-             "only re-spells literals; hence the reparsed tree equals the original up to literal spelling and a second print is "
-             "identical. Tie: for generated modules without builtin calls and every corpus file that parses error-free: "
+             "`parse_print_module`: parseModule (printModule m) = m.map norm for EVERY module the parser can produce (any number of "
+             "declarations, statements, nesting, expression size; only the pointer-advance operator left out), where norm only "
+             "re-spells literals; `print_norm_module`: printing the reparsed module gives the same tokens (second rebuild identical). Tie: for generated modules without builtin calls and every corpus file that parses error-free: "
              "parse -> rebuild -> parse gives the same first-generation AST up to literal suffix/spelling, the second rebuild is "
              "byte-identical, and the tokens of the rebuilt text equal the Lean printer's tokens for the Lean parser's tree of the "
              "source's real token stream. Known findings: #-markers on structure types (F27/F28), declaration-less modules (F34).",
